@@ -141,13 +141,53 @@ template <class L> void eqU(size_t n, const std::vector<std::string> &a, const s
 
 namespace std { template <> struct hash<vh::Pt> { size_t operator()(const vh::Pt &p) const { return p.x; } }; }
 
+// ---- C09: conversions of the graph a history builds ----
+template <class L> void cvD(size_t n, const std::vector<std::string> &ops) {
+    LabeledDirectedGraph<L> g(n); for (auto &op : ops) applyOp(g, op);
+    emitGuarded([&] { return observeD(g.getReversedGraph()); });
+    emitGuarded([&] { auto r = g.getReversedGraph(); auto rr = r.getReversedGraph(); return Segs{Obs{(Z)((rr == g) && (g == rr) && !(rr != g))}}; });
+    emitGuarded([&] { LabeledUndirectedGraph<L> u(g); return observeU(u); });
+}
+template <class L> void cvU(size_t n, const std::vector<std::string> &ops) {
+    LabeledUndirectedGraph<L> g(n); for (auto &op : ops) applyOp(g, op);
+    emitGuarded([&] { return observeD(g.getDirectedGraph()); });
+    emitGuarded([&] { auto d = g.getDirectedGraph(); LabeledUndirectedGraph<L> u(d); return Segs{Obs{(Z)((u == g) && (g == u))}}; });
+}
+// ---- C09: edge-list constructors from several containers ----
+template <class G, class L> struct FromList {
+    template <class C> static G make(const std::vector<Triple> &ts) {
+        C c; for (auto it = ts.rbegin(); it != ts.rend(); ++it) c.push_front(LabeledEdge<L>(it->i, it->j, Lab<L>::mk(it->l))); return G(c); }
+    static Segs run(const std::vector<Triple> &ts, Segs (*obs)(const G &)) {
+        std::vector<LabeledEdge<L>> v; for (auto &t : ts) v.push_back(LabeledEdge<L>(t.i, t.j, Lab<L>::mk(t.l)));
+        G gv(v);
+        G gl = make<std::list<LabeledEdge<L>>>(ts), gd = make<std::deque<LabeledEdge<L>>>(ts), gf = make<std::forward_list<LabeledEdge<L>>>(ts);
+        Segs o = obs(gv);
+        if (!(gv == gl && gl == gd && gd == gf && gf == gv) || obs(gl) != o || obs(gd) != o || obs(gf) != o) o.push_back(Obs{-7});   // containers must agree
+        return o;
+    }
+};
+template <class G> struct FromList<G, NoLabel> {
+    template <class C> static G make(const std::vector<Triple> &ts) { C c; for (auto it = ts.rbegin(); it != ts.rend(); ++it) c.push_front(Edge(it->i, it->j)); return G(c); }
+    static Segs run(const std::vector<Triple> &ts, Segs (*obs)(const G &)) {
+        std::vector<Edge> v; for (auto &t : ts) v.push_back(Edge(t.i, t.j));
+        G gv(v);
+        G gl = make<std::list<Edge>>(ts), gd = make<std::deque<Edge>>(ts), gf = make<std::forward_list<Edge>>(ts);
+        std::set<Edge> st(v.begin(), v.end()); G gs(st);            // a sorted container: same graph as a value (no labels to lose)
+        Segs o = obs(gv);
+        if (!(gv == gl && gl == gd && gd == gf && gf == gs && gs == gv) || obs(gl) != o || obs(gd) != o || obs(gf) != o) o.push_back(Obs{-7});
+        return o;
+    }
+};
+template <class L> void elD(const std::vector<Triple> &ts) { emitGuarded([&] { return FromList<LabeledDirectedGraph<L>, L>::run(ts, &observeD<L>); }); }
+template <class L> void elU(const std::vector<Triple> &ts) { emitGuarded([&] { return FromList<LabeledUndirectedGraph<L>, L>::run(ts, &observeU<L>); }); }
+
 int main() {
     std::string line;
     while (std::getline(std::cin, line)) {
         auto c = line.find(':'); if (c == std::string::npos) continue;
         std::istringstream hd(line.substr(0, c)); std::string cls, lk; size_t n; hd >> cls;
-        bool eq = cls == "EQ"; if (eq) hd >> cls;
-        hd >> lk >> n;
+        bool eq = cls == "EQ", cv = cls == "CV", el = cls == "EL"; if (eq || cv || el) hd >> cls;
+        hd >> lk; if (!el) hd >> n;
         fputs(("CASE " + line + "\n").c_str(), stdout); fflush(stdout);
         if (eq) {
             std::string body = line.substr(c + 1); auto bar = body.find('|');
@@ -155,7 +195,9 @@ int main() {
             if (cls == "D") DISPATCH(eqD, lk, n, a, b); else if (cls == "U") DISPATCH(eqU, lk, n, a, b);
             continue;
         }
+        if (el) { auto ts = parseTriples(line.substr(c + 1)); if (cls == "D") DISPATCH(elD, lk, ts); else DISPATCH(elU, lk, ts); continue; }
         auto ops = splitOps(line.substr(c + 1));
+        if (cv) { if (cls == "D") DISPATCH(cvD, lk, n, ops); else DISPATCH(cvU, lk, n, ops); continue; }
         if (cls == "D") DISPATCH(runD, lk, n, ops);
         else if (cls == "U") DISPATCH(runU, lk, n, ops);
         else { fputs("I unknown-class\n", stdout); }
